@@ -249,6 +249,8 @@ func (e *Engine) Verify(name string) (*VC, error) {
 		v := f.freshVal("fv_"+fv.Name(), fv.Type(), "true", st)
 		f.vals[fv] = v
 		vc.assert(Not(Eq(v.T, "Null")))
+		// a captured variable is a heap object of its own
+		vc.assert(Eq(App("pth", v.T), "PNil"))
 	}
 	// axioms of the contract files
 	axEnv := &Env{vc: vc, st: st, old: st, vars: map[string]Val{}, fn: fn}
